@@ -19,6 +19,7 @@ META = {
             "repaired reorg (fixes/F7_reorg_restore_state.diff); for the unrepaired code add_block_inv is refuted with the 3-block witness. "
             "Hypotheses: block ids are collision-free digests (F8 excluded); for the code without fixes/F27_blockno_zero.diff additionally that no "
             "arriving block carries BlockNo 0 (refuted otherwise; with the repair no hypothesis on numbers is needed: C05_history_inv_repaired). "
+            "Also proved: findAncestor returns a listed main-chain block; the errBlocks LRU (128) and the orphan pool capacity are modelled. "
             "The model is tied to /repo on every run: identical observables (best, height->hash, tx->(block,idx), receipts, stored, "
             "errBlocks, orphan pool, MemPool messages, state root) after every arrival on generated block trees, and Inv is evaluated "
             "directly on the implementation through the query surface and a raw key scan.",
